@@ -12,13 +12,13 @@ Fixpoint digits_value (s : list N) (acc : Z) : option Z :=   (* every character 
   | [] => Some acc
   | c :: r => if is_digit c then digits_value r (acc * 10 + Z.of_N (c - 48))%Z else None
   end.
-Definition stoi (s : list N) : res Z :=
-  let s1 := drop_cspace s in
-  let '(neg, s2) := match s1 with
-                    | 43%N :: r => (false, r)
-                    | 45%N :: r => (true, r)
-                    | _ => (false, s1)
-                    end in
+Definition stoi_sign (s1 : list N) : bool * list N :=
+  match s1 with
+  | 43%N :: r => (false, r)
+  | 45%N :: r => (true, r)
+  | _ => (false, s1)
+  end.
+Definition stoi_body (neg : bool) (s2 : list N) : res Z :=
   match s2 with
   | [] => Throw ECmdline
   | c :: _ =>
@@ -29,6 +29,8 @@ Definition stoi (s : list N) : res Z :=
                        if Z.ltb z (-2147483648) || Z.ltb 2147483647 z then Throw EOutOfRange else Ok z
            end
   end.
+Definition stoi (s : list N) : res Z :=
+  let '(neg, s2) := stoi_sign (drop_cspace s) in stoi_body neg s2.
 
 (* ---- field updates ---- *)
 Definition upd_str (f : field) (v : list N) (o : options) : res options :=
@@ -223,6 +225,8 @@ Definition is_operand (a : list N) : bool :=
   | c :: r => negb (N.eqb c 45) || is_nil r
   end.
 
+Definition is_long_arg (a : list N) : bool := match a with _ :: 45%N :: _ => true | _ => false end.
+
 (* CmdLineParser::parse over argv[1..] *)
 Fixpoint parse_args (args : list (list N)) (p : pstate) : res pstate :=
   match args with
@@ -231,7 +235,7 @@ Fixpoint parse_args (args : list (list N)) (p : pstate) : res pstate :=
       if is_operand a then do p' <- process_option 63 a p; parse_args rest p'
       else if str_eqb a (bs "--") then operands rest p
       else
-        let is_long := match a with _ :: 45%N :: _ => true | _ => false end in
+        let is_long := is_long_arg a in
         match rest with
         | [] =>
             do x <- (if is_long then parse_long a None p else parse_short (tl a) None p);
